@@ -52,7 +52,8 @@ class C10(PropBase):
     def init_op(self, rng):
         role = "s" if rng.random() < 0.8 else "c"
         return {"op": "init", "sessions": [{"name": "x", "role": role}], "observe_pending": True, "follow": True, "invalid_units": True,
-                "lazy_drain": rng.random() < 0.7, "first_id": rng.choice([1, 1, 1, 120, 250, 32760, 65530, 2 ** 31 - 40, 2 ** 32 - 5]), "big": rng.choice([0.03, 0.15]), "bad_text": rng.choice([0.0, 0.0, 0.04]), "style": policy.wire_style(rng)}
+                "lazy_drain": rng.random() < 0.7, "first_id": rng.choice([1, 1, 1, 120, 250, 32760, 65530, 2 ** 31 - 40, 2 ** 32 - 5, 1, 1, 1, 120, 250, 32760, 65530, 2 ** 31 - 40, 2 ** 32 - 5, -2 ** 31 + 3, -9000000, -40]),
+                "huge": rng.choice([0.0] * 7 + [0.03]), "big": rng.choice([0.03, 0.15]), "bad_text": rng.choice([0.0, 0.0, 0.04]), "style": policy.wire_style(rng)}
 
     def make(self, init):
         st = St(World(init))
@@ -65,7 +66,7 @@ class C10(PropBase):
         w = st.w
         se = w.s["x"]
         model = se.model
-        g = Gen(rng, big=w.init["big"], bad_text=w.init.get("bad_text", 0.0))
+        g = Gen(rng, big=w.init["big"], bad_text=w.init.get("bad_text", 0.0), huge=w.init.get("huge", 0.0))
         gb = Gen(rng, big=w.init["big"])  # byzantine peer (own encoder): text must be encodable here
         gb.odd_known = True
         gb.invalid_known = True
